@@ -280,8 +280,9 @@ class QintImp(int, Qtype):
     @classmethod
     def sub(cls, tleft: TExp, tright: TExp) -> TExp:
         """Subtract two Qint"""
-        an = cls.bitwise_not(cls.fill(tleft))
-        su = cls.add(an, cls.fill(tright))
+        wide = cls if cls.BIT_SIZE >= len(tright[1]) else tright[0]
+        an = cls.bitwise_not(wide.fill(tleft))  # type: ignore
+        su = cls.add(an, wide.fill(tright))  # type: ignore
         return cls.bitwise_not(su)
 
     @classmethod
